@@ -15,7 +15,8 @@ import rs2lean
 
 SLICE = ['GetRange', 'GetRangeFrom', 'GetRangeTo', 'GetRangeFull', 'GetRangeIncl', 'GetRangeToIncl', 'GetBounds']
 TOKEN = ['FromEncoded', 'TokenNew', 'Decoded']
-INDEX = ['ForLen', 'ForLenIncl', 'ForLenUnchecked', 'IndexFromStr']
+INDEX = ['ForLen', 'ForLenIncl', 'ForLenUnchecked', 'IndexFromStr', 'IndexTryFromTokenRef', 'IndexTryFromToken', 'TokenToIndex']
+TOIDX = ['IndexFromStr', 'IndexTryFromTokenRef', 'TokenToIndex']
 SPLITS = ['SplitFront', 'SplitAt', 'SplitBack', 'Parent']
 RELS = ['IsRoot', 'SplitAt', 'StartsWith', 'StripPrefix', 'EndsWith', 'StripSuffix', 'Intersection']
 ACCESS = ['IsRoot', 'Count', 'Back', 'Front']
@@ -39,9 +40,9 @@ PROP_FUNCS = {
     'C01': _u(['ValidateBytes'], TOKEN, SLICE, POINTER, BUF),
     'C11': _u(BUF, ['IsRoot', 'Count']),
     'C02': ['ValidateBytes'], 'C14': _u(['ValidateBytes'], PARSEERR),
-    'C05': _u(WALKS, ['IndexFromStr', 'ForLen']), 'C09': _u(WALKS, DELETE, EXPAND, ASSIGN, ['IndexFromStr', 'ForLen']), 'C15': _u(WALKS, ASSIGN, LABELS, ['IndexFromStr', 'ForLen']),
-    'C08': _u(WALKS, DELETE, ['IndexFromStr', 'ForLen']), 'C10': _u(WALKS, DELETE, EXPAND, ASSIGN, ['IndexFromStr', 'ForLen']),
-    'C06': _u(EXPAND, ASSIGN, ['IndexFromStr', 'ForLenIncl']), 'C07': _u(EXPAND, ASSIGN, ['IndexFromStr', 'ForLenIncl']),
+    'C05': _u(WALKS, ['IndexFromStr', 'ForLen'], TOIDX), 'C09': _u(WALKS, DELETE, EXPAND, ASSIGN, ['IndexFromStr', 'ForLen'], TOIDX), 'C15': _u(WALKS, ASSIGN, LABELS, ['IndexFromStr', 'ForLen'], TOIDX),
+    'C08': _u(WALKS, DELETE, ['IndexFromStr', 'ForLen'], TOIDX), 'C10': _u(WALKS, DELETE, EXPAND, ASSIGN, ['IndexFromStr', 'ForLen'], TOIDX),
+    'C06': _u(EXPAND, ASSIGN, ['IndexFromStr', 'ForLenIncl'], TOIDX), 'C07': _u(EXPAND, ASSIGN, ['IndexFromStr', 'ForLenIncl'], TOIDX),
     'C03': TOKEN, 'C04': _u(ACCESS, ['FromTokens']), 'C12': _u(SLICE, SPLITS), 'C13': _u(RELS, ['Append']), 'C16': INDEX,
     'C19': _u(TOKEN, SLICE, SPLITS, RELS, ACCESS),
 }
@@ -64,6 +65,8 @@ TIE_THEOREMS = {
     'PopBack': ['Jp.Tie.pop_back_eq'], 'Append': ['Jp.Tie.append_eq'], 'Clear': ['Jp.Tie.clear_eq'],
     'PopFront': ['Jp.Tie.pop_front_eq'], 'Replace': ['Jp.Tie.replace_eq'],
     'IndexFromStr': ['Jp.Tie.index_from_str_eq'],
+    'IndexTryFromTokenRef': ['Jp.Tie.index_try_from_token_ref_eq'], 'IndexTryFromToken': ['Jp.Tie.index_try_from_token_eq'],
+    'TokenToIndex': ['Jp.Tie.token_to_index_eq', 'Jp.Tie.token_index_doors_agree'],
     'ExpandJson': ['Jp.Tie.expand_json_eq'], 'ExpandToml': ['Jp.Tie.expand_toml_eq'],
     'DeleteJson': ['Jp.Tie.delete_json_eq'], 'DeleteToml': ['Jp.Tie.delete_toml_eq'],
     'AssignScalarJson': ['Jp.Tie.assign_scalar_json_eq'], 'AssignObjectJson': ['Jp.Tie.assign_object_json_eq'],
